@@ -11,7 +11,7 @@ Table == {"none", "2", "2 2", "1 4"}
 Globals == {"none", "const-i32", "mut-i64+const-i32"}
 Data == {"none", "one", "two"}                       \* only with a memory
 Imports == {"none", "func-named", "func-anon", "func+global"}
-Exports == {"inline", "standalone", "memory+global"}
+Exports == {"inline", "standalone", "memory+global", "inline+alias"}   \* inline+alias: a function exported under its inline name and under a second, standalone one
 Start == {FALSE, TRUE}
 Elem == {"none", "one"}                              \* only with a table
 Body == {"arith", "control", "locals"}
